@@ -32,6 +32,10 @@ TYPE_DOPS: Dict[str, Dict[str, Any]] = {
     "floatz": {"name": "floatz", "dct": {"k": "STD", "base": "A_FLOAT32", "bits": 32}},
     "asciiz": {"name": "asciiz", "dct": {"k": "MINMAX", "base": "A_ASCIISTRING", "min": 0, "max": 4, "term": "ZERO"}},
     "bytesz": {"name": "bytesz", "dct": {"k": "MINMAX", "base": "A_BYTEFIELD", "min": 0, "max": 4, "term": "ZERO"}},
+    # kinds whose expected values are spelled in lower-case hex (see refmatcher.LOWER_CASE_TYPES)
+    "byteslc": {"name": "byteslc", "dct": {"k": "STD", "base": "A_BYTEFIELD", "bits": 16}},
+    "dtclc": {"kind": "dtcdop", "name": "dtclc", "dct": {"k": "STD", "base": "A_UINT32", "bits": 24},
+              "dtcs": [{"name": "e1", "code": 0x12AB}, {"name": "e2", "code": 0x5C78}, {"name": "e3", "code": 0x9ABC}]},
 }
 OWN_DID_FLAG = 0x0080
 OWN_PAD = 0xEE  # constant byte in front of the payload of a variant's own re-definition of a service ...
@@ -68,6 +72,8 @@ def payload_params(svc: Dict[str, Any], layer: str, msg: str) -> List[Dict[str, 
         return [{"t": "VALUE", "name": "fl", "dop": "F3_" + typ}]
     if layout == "sstruct":
         return [{"t": "VALUE", "name": "st", "dop": "S2_" + typ}]
+    if layout in ("tworesp", "tworesp_r"):  # the LONG positive response; the short one stops after `id`
+        return [{"t": "VALUE", "name": "id", "dop": "u8"}, {"t": "VALUE", "name": "rev", "dop": TYPE_DOPS[typ]["name"]}]
     if layout == "tstruct":
         kid = f"{layer}.{msg}.tk"
         return [{"t": "TABLE-KEY", "name": "tk", "table": "T_" + typ, "id": kid},
@@ -80,6 +86,8 @@ def out_param_path(svc: Dict[str, Any], tgt: str) -> Dict[str, str]:
     if tgt == "nrc":
         return {"snref": "nrc"}
     layout = svc["layout"]
+    if layout in ("tworesp", "tworesp_r"):
+        return {"snref": "rev"}
     if layout == "top":
         return {"snref": "id"}
     if layout == "toppath":
@@ -103,6 +111,10 @@ def service_parts(svc: Dict[str, Any], layer: str, own: bool, dop_layer: str):
           + ([{"t": "CODED-CONST", "name": "pad", "dct": U8, "value": OWN_PAD}] if (own or svc["type"] in PADDED_TYPES) else [])
           + payload_params(svc, layer, "PR_" + name)}
     s = {"name": name, "request": "RQ_" + name, "pos": ["PR_" + name], "neg": ["NR"]}
+    if svc["layout"] in ("tworesp", "tworesp_r"):
+        short = {"kind": "POS-RESPONSE", "name": "PS_" + name, "params": [dict(p) for p in pr["params"][:-1]]}  # ... without `rev`
+        s["pos"] = ["PS_" + name, "PR_" + name] if svc["layout"] == "tworesp" else ["PR_" + name, "PS_" + name]
+        return [rq, short, pr], s
     return [rq, pr], s
 
 
